@@ -439,6 +439,9 @@ def run_property(pid, tier, seed):
         kus += pc.get('kani_thorough', [])
     for ku in kus:
         KU.run_kani_unit(res, ku, src, tier, BUILD, VERIF)
+    if pc.get('bounded') or (tier == 'thorough' and pc.get('bounded_thorough')):
+        import witness
+        witness.run_bounded_units(res, pc, src, BUILD, VERIF, tier)
     # witness search for verus violations
     if res.violations:
         import witness
